@@ -268,8 +268,9 @@ var verifWidthsNarrow = []int{1, 4, 5}
 
 func verifLayout(maxK int) []int {
 	K := 2 + verifChoice("K", maxK-1)
+	wset := verifChoice("wset", 3)
 	ws := verifWidths
-	if verifChoice("wset", 2) == 1 {
+	if wset == 1 {
 		ws = verifWidthsNarrow
 	}
 	pos := make([]int, K)
@@ -277,7 +278,16 @@ func verifLayout(maxK int) []int {
 	for i := 0; i < K; i++ {
 		pos[i] = p
 		if i < K-1 {
-			p += ws[verifChoice("w", len(ws))]
+			if wset == 2 {
+				// alternating layout: a 1-byte token (punctuation) followed by a 4- or 5-byte token (key, atom, number, ...)
+				if i%2 == 0 {
+					p++
+				} else {
+					p += 4 + verifChoice("w45", 2)
+				}
+			} else {
+				p += ws[verifChoice("w", len(ws))]
+			}
 		}
 	}
 	return pos
@@ -290,11 +300,16 @@ func verifFillChannel(pj *internalParsedJson, pos []int) {
 	slot := 0
 	start := 0
 	prev := -1
+	cut := len(pos)
+	if len(pos) > 1 && verifChoice("split", 2) == 1 {
+		// one hand-over point (more than one adds nothing: the consumer state carried across a hand-over is the same)
+		cut = 1 + verifChoice("splitat", len(pos)-1)
+		verifAssume(jsonMarkup(pj.Message[pos[cut-1]]))
+	}
 	for start < len(pos) {
 		end := len(pos)
-		if len(pos)-start > 1 && verifChoice("split", 2) == 1 {
-			end = start + 1 + verifChoice("splitat", len(pos)-start-1)
-			verifAssume(jsonMarkup(pj.Message[pos[end-1]]))
+		if start < cut {
+			end = cut
 		}
 		ic := indexChan{indexes: &pj.buffers[slot]}
 		for i := start; i < end; i++ {
@@ -307,6 +322,22 @@ func verifFillChannel(pj *internalParsedJson, pos []int) {
 		start = end
 	}
 	pj.indexChans <- indexChan{index: -1}
+}
+
+// verifSplitTokenKinds case-splits the first byte of every token (the six punctuation marks, a quote, or
+// anything else) by verifChoice, so that the work can be distributed over worker processes; it adds no constraint.
+func verifSplitTokenKinds(msg []byte, pos []int) {
+	marks := []byte("{}[]:,\"")
+	for _, p := range pos {
+		k := verifChoice("kind", len(marks)+1)
+		if k < len(marks) {
+			verifAssume(msg[p] == marks[k])
+		} else {
+			for _, m := range marks {
+				verifAssume(msg[p] != m)
+			}
+		}
+	}
 }
 
 func verifHarness_P3_Machine() {
@@ -357,4 +388,94 @@ func verifHarness_P3_Machine() {
 			}
 		}
 	}
+}
+
+// ---- tier (ii): valid skeletons with one free token ---------------------------------------------------
+
+// token kinds: punctuation marks stand for themselves, s = any scalar token (string, number, atom: bytes
+// free), k = object key (a string), n = newline token (ndjson only)
+var verifSkeletons = []string{
+	"[s,s]", "{k:s}", "[[s]]", "[s,s,s]", "{k:[s]}", "[{k:s}]", "{k:s,k:s}", "[{k:s},s]", "{k:{k:s}}", "[[],{}]", "[[s],[s]]",
+}
+var verifSkeletonsND = []string{
+	"[]n[]", "[s]n{k:s}", "{}nn[s]", "[s]n[s]n[s]",
+}
+var verifScalarWidths = []int{4, 5, 8}
+
+func verifHarness_P3_Skeleton() {
+	nd := verifChoice("ndjson", 2)
+	sks := verifSkeletons
+	if nd == 1 {
+		sks = verifSkeletonsND
+	}
+	idx := verifChoice("skeleton", 12)
+	verifAssume(idx < len(sks))
+	sk := sks[idx]
+	K := len(sk)
+	free := verifChoice("free", 16) // K and above: no free token (the skeleton itself)
+	verifAssume(free <= K)
+	sw := verifScalarWidths[verifChoice("sw", len(verifScalarWidths))]
+	pos := make([]int, K)
+	p := 0
+	for i := 0; i < K; i++ {
+		pos[i] = p
+		if sk[i] == 's' || sk[i] == 'k' || i == free {
+			p += sw
+		} else {
+			p++
+		}
+	}
+	N := pos[K-1] + 1
+	msg := nondetBytes("msg", N)
+	want := make([]uint8, N)
+	for _, q := range pos {
+		want[q] = 1
+	}
+	verifAssume(verifScanOK(msg, want, uint8(nd)) == 1)
+	verifAssume(msg[N-1] == '}' || msg[N-1] == ']')
+	for _, b := range msg {
+		verifAssume(b != '\\')
+	}
+	for i := 0; i < K; i++ {
+		if i == free {
+			continue
+		}
+		c := msg[pos[i]]
+		switch sk[i] {
+		case 's':
+			// a fixed representative scalar (the free token is where the kinds vary): null, then white space
+			verifAssume(c == 'n' && msg[pos[i]+1] == 'u' && msg[pos[i]+2] == 'l' && msg[pos[i]+3] == 'l')
+			for j := 4; j < sw; j++ {
+				verifAssume(msg[pos[i]+j] == ' ')
+			}
+		case 'k':
+			// a key filling its slot: quote, sw-2 free bytes, quote
+			verifAssume(c == '"' && msg[pos[i]+sw-1] == '"')
+			for j := 1; j < sw-1; j++ {
+				verifAssume(msg[pos[i]+j] != '"')
+			}
+		case 'n':
+			verifAssume(c == '\n')
+		default:
+			verifAssume(c == sk[i])
+		}
+	}
+	pj := &internalParsedJson{}
+	pj.Message = msg
+	pj.initialize(len(msg))
+	pj.ndjson = uint64(nd)
+	pj.copyStrings = verifChoice("copy", 2) == 1
+	verifFillChannel(pj, pos)
+	ok, _ := pj.unifiedMachine()
+	verifReach("P3s.returned")
+	ref := &verifRefP{buf: msg, pos: pos, copyS: pj.copyStrings, ndjson: nd == 1}
+	roots, refOK := ref.parse()
+	verifAssert(ok == refOK, "stage 2 accepts exactly the token sequences of the JSON grammar")
+	if !ok {
+		return
+	}
+	verifReach("P3s.accepted")
+	verifAssert(len(pj.containingScopeOffset) == 0, "the scope stack is empty after a successful parse")
+	verifAssert(verifWFTape(&pj.ParsedJson, true, false), "the produced tape obeys the documented format")
+	verifCheckRoots(&pj.ParsedJson, roots)
 }
